@@ -60,6 +60,10 @@ pub struct Scn {
     /// traffic volume as a multiple of the cache size / number of crafted items
     pub factor: u32,
     pub cleanup_every: u32,
+    /// the wall clock handed to push()/cleanup() while the monotonic clock advances normally: 0 = follows it,
+    /// 1 = frozen at the first instant, 2 = steps back by one hour after a third of the traffic
+    #[serde(default)]
+    pub wall_clock: u8,
 }
 
 pub struct C17;
@@ -96,7 +100,8 @@ pub fn gen(idx: u64, rng: &mut Rng, tier: Tier) -> Scn {
         e: *rng.pick(&[256u16, 512, 1024]),
         b: *rng.pick(&[2u32, 4, 8]),
         factor: 20,
-        cleanup_every: *rng.pick(&[0u32, 0, 50]),
+        cleanup_every: *rng.pick(&[0u32, 0, 50, 1]),
+        wall_clock: *rng.pick(&[0u8, 0, 0, 1, 2]),
     }
 }
 
@@ -129,12 +134,19 @@ use crate::monitor::NullBuilder;
 
 struct Rr {
     recv: Option<flute::receiver::MultiReceiver>,
+    /// see Scn::wall_clock; `step_at` = instant (us) after which mode 2 has stepped back
+    wall_clock: u8,
+    step_at: u64,
 }
 impl Rr {
     fn clock(&self, t_us: u64) -> std::time::SystemTime {
         flute::verif::clock::set(std::time::Duration::from_micros(t_us.saturating_sub(t0_us() - 1_000_000)));
         flute::verif::reset_loop_budget(crate::rdrv::LOOP_BUDGET);
-        systime_us(t_us)
+        match self.wall_clock {
+            1 => systime_us(t0_us()),
+            2 if t_us >= self.step_at => systime_us(t_us.saturating_sub(3_600_000_000)),
+            _ => systime_us(t_us),
+        }
     }
     fn push(&mut self, ep: &flute::core::UDPEndpoint, b: &[u8], t_us: u64) {
         let now = self.clock(t_us);
@@ -312,7 +324,9 @@ pub fn run(scn: &Scn, ctx: &Ctx, scratch: &Path) {
     let baseline = alloc::live();
     let builder = std::rc::Rc::new(NullBuilder::default());
     let filtering = scn.kind == Kind::FilterChurn;
-    let mut rr = Rr { recv: Some(flute::receiver::MultiReceiver::new(builder.clone(), Some(recv.config()), filtering)) };
+    // (the expired-instance kind depends on the wall clock by construction)
+    let wall_clock = if scn.kind == Kind::ExpiredFdtInstances { 0 } else { scn.wall_clock };
+    let mut rr = Rr { recv: Some(flute::receiver::MultiReceiver::new(builder.clone(), Some(recv.config()), filtering)), wall_clock, step_at: t0_us() + (traffic.len() as u64 * 50) / 3 };
     let ep = EndpointSpec::default_ep().build();
     let base_recv = alloc::live();
     // per-object bound: cache (+ per-packet bookkeeping) + 2 blocks (+ per-symbol bookkeeping), slack 3
@@ -337,6 +351,7 @@ pub fn run(scn: &Scn, ctx: &Ctx, scratch: &Path) {
     let mut pushed_bytes = 0usize;
     let mut blocks_touched: std::collections::BTreeSet<u32> = Default::default();
     let mut precise_reported = false;
+    let mut steady_reported = false;
     let err_before = 0usize;
     for (i, b) in traffic.iter().enumerate() {
         t += 50;
@@ -398,6 +413,20 @@ pub fn run(scn: &Scn, ctx: &Ctx, scratch: &Path) {
         max_objs = max_objs.max(rr.nb_objects());
         if i > 0 && rr.nb_objects() == 0 {
             abandoned = true;
+        }
+        if scn.kind == Kind::ManyTois && scn.cleanup_every == 1 && scn.session_timeout_ms.is_none() {
+            // steady traffic with cleanup() after every packet (the documented usage): a stalled object is released
+            // one object timeout after its packet, so only the objects of the last timeout window are held
+            let window = (scn.object_timeout_ms * 1000 / 50) as usize + 64;
+            if rr.nb_objects() > window && !steady_reported {
+                steady_reported = true;
+                violate(
+                    ctx,
+                    "C17/objects-survive-timeout",
+                    "steady-traffic-polled-cleanup",
+                    format!("push {}: {} stalled objects are held although cleanup() runs after every packet (one new TOI every 50 us, object timeout {} ms: at most {} can be younger than the timeout)", i, rr.nb_objects(), scn.object_timeout_ms, window),
+                );
+            }
         }
         if scn.kind == Kind::ManySessions || scn.kind == Kind::FilterChurn {
             sessions_seen.insert(i);
@@ -585,7 +614,7 @@ fn run_fdt_updates(scn: &Scn, ctx: &Ctx, scratch: &Path, recv: &RecvSpec) {
         None => return,
     };
     let builder = std::rc::Rc::new(NullBuilder::default());
-    let mut rr = Rr { recv: Some(flute::receiver::MultiReceiver::new(builder, Some(recv.config()), false)) };
+    let mut rr = Rr { recv: Some(flute::receiver::MultiReceiver::new(builder, Some(recv.config()), false)), wall_clock: 0, step_at: 0 };
     let ep = EndpointSpec::default_ep().build();
     let mut last_obj_pkt = 0u64;
     let mut held_after_timeout = None;
